@@ -3,9 +3,12 @@
 # property -> contract modules that carry obligations for it
 PROPERTY_MODULES = {
     "C16": ["selection", "choicemap", "core_gfi", "combinators"],
-    "C08": ["combinators"],
+    "C08": ["combinators", "pjax_vmap"],
+    "C14": ["seed", "pjax_vmap"],
+    "C06": ["seed"],
+    "C07": ["seed"],
     "C01": ["core_gfi", "combinators", "lemmas", "choicemap"],
-    "C02": ["core_gfi", "combinators", "lemmas"],
+    "C02": ["core_gfi", "combinators", "lemmas", "pjax_vmap"],
     "C03": ["core_gfi", "combinators", "lemmas", "choicemap"],
     "C04": ["core_gfi", "combinators", "selection"],
     "C05": ["core_gfi", "combinators", "lemmas"],
